@@ -23,6 +23,11 @@ def _c11_small(args):
         out.append(x_text.observe_render(fx, np, [pid], t, codes, kind, shape=(2, len(codes) // 2)))
         for c in (codes if (tier == 'thorough' or len(codes) <= 16) else [lo, hi, 0, -1 if t[0] else 1, codes[idx % len(codes)]]):
             out.append(x_text.observe_render(fx, np, [pid], t, c, kind))
+    # objects with a history: derived from / mutated after an already rendered object
+    for j, how in enumerate(x_text.DERIVE):
+        kind = RENDER[(idx + j) % len(RENDER)]
+        if t[2] <= t[1] - (2 if how == 'lshift' else 0):
+            out.append(x_text.observe_render_derived(fx, np, [pid], t, codes, kind, how, shape=(2, len(codes) // 2) if how == 'T' else None))
     for b in (2, 8, 10, 16, 3):
         out.append(x_text.observe_render(fx, np, [pid], t, codes, 'base', base=b))
         out.append(x_text.observe_render(fx, np, [pid], t, codes[idx % len(codes)], 'base', base=b))
